@@ -145,6 +145,13 @@ func (pc *PodCache) labelFilter(old, cur *v1.Pod) bool {
 
 // onEvent updates the IP-based index (pc.podsByIP).
 func (pc *PodCache) onEvent(old, pod *v1.Pod, ev model.Event) error {
+	if ev == model.EventUpdate && old != nil &&
+		(old.Spec.NodeName != pod.Spec.NodeName || old.Spec.ServiceAccountName != pod.Spec.ServiceAccountName) {
+		// An endpoint takes its node, locality and identity from the pod as it was when its EndpointSlice was
+		// handled. If that was before the pod was bound to a node (the pod informer lagging behind the slice
+		// informer), nothing else would rebuild the endpoint: the pod was found, so the slice is not waiting for it.
+		pc.queueEndpointEventsForPod(pod)
+	}
 	ip := pod.Status.PodIP
 	// PodIP will be empty when pod is just created, but before the IP is assigned
 	// via UpdateStatus.
@@ -310,6 +317,17 @@ func (pc *PodCache) queueWaitingEndpointEvents(ip string) {
 			pc.queueEndpointEvent(epKey)
 		}
 		endpointsPendingPodUpdate.Record(float64(len(pc.needResync)))
+	}
+}
+
+// queueEndpointEventsForPod queues an endpoint event for every EndpointSlice of the pod's namespace that has an
+// endpoint for the pod.
+func (pc *PodCache) queueEndpointEventsForPod(pod *v1.Pod) {
+	if pc.c == nil || pc.c.endpoints == nil {
+		return
+	}
+	for _, key := range pc.c.endpoints.slicesForPod(pod) {
+		pc.queueEndpointEvent(key)
 	}
 }
 
